@@ -42,6 +42,8 @@ CHECKS = {
          "2752 cases: ~75 non-safe method rows (a hand-written table gives the argument vector and the documented witness requirement; manifest methods without a row are reported as uncovered, never failed) x {stranger, one Alphabet member, Alphabet 2/3+1, committee majority, named key, named key+Alphabet, named key+majority, floor(2n/3) single members}: insufficient witnesses => empty diff on all contracts, no notification, no GAS/NEO/NEOFS movement; sufficient => HALT (update: past authorisation, stopped by the version gate); ~90 safe-method rows with all witnesses => empty diff; verify of Proxy/Alphabet/Processing accepts exactly the documented multi-signatures", "4.3"),
  "C15": ("chainmc", "exhaustive enumeration of the finite artefact set (11 scripts, manifests, bindings, deployment order and its transpositions, versions); where a shipped script differs from a fresh compilation, dual-world lock-step exploration (same contract hash, shipped vs fresh executable) of the property drivers plus a method-table x integer-boundary differential",
          "byte comparison of every embedded script/token list/manifest (read through contracts.GetFS/GetMain) with a fresh library compilation; on any script difference the verdict comes from execution: every C03 method row x integer-argument boundary values and the quick BFS explorations of the drivers that involve the contract are run in two worlds and every transition's outcome and successor state must coincide; GetFS() order deployed on a fresh chain (NNS-resolved dependencies) plus all adjacent transpositions; version() of all embedded and fresh contracts == VERSION; bindings regenerated byte-for-byte and every invoked method/arity matched against the manifest ABI by an independent go/ast pass", "4.15"),
+ "C13": ("deploymc", "stateless schedule/crash exploration of the real deploy.Deploy by iterative deviation bounding (default schedule, then all enumerated one-deviation schedules: sleep, crash-restart, adjacent reorder, absent minority; thorough: pairs) on an in-process neo-go chain with Notary services under testing/synctest virtual time; exhaustive input grids for the three pure helpers",
+         "quick: n=1..4 default (determinism self-check), every sleep(member, round, 1) and every crash at every second round with immediate restart for n<=3, adjacent transaction swaps for n=2, every absent minority for n=3,4 (~1450 complete runs of Deploy); thorough: n=1..7, sleeps of 1/3/150 rounds and crashes with two restart delays for n<=4, call-granular crash points, reorders for n<=3, minorities for n=3..7, two-deviation sleep pairs for n=2, all 2^32 heights of the transaction-window helper; oracle on every final chain: all runs return nil, roles designated to exactly the committee, NNS id 1, every system name resolves to exactly one contract with the supplied executable, 8+n contracts, no designation with an invalid witness ever submitted, a second run submits no deploy/update/register/addRecord/setRecord/designateAsRole and changes nothing", "3"),
 }
 
 NOT_YET = "check not built yet in this revision (work in progress; see DESIGN.md section 10)"
@@ -69,12 +71,14 @@ def main():
         "setup_cmd": "./setup.sh",
         "hooks": {
             "guard": "verif",
-            "enable": "no source hooks in /repo: chainmc compiles the contracts from the working tree and drives them through the public ABI",
+            "enable": "no file of /repo is changed: deploymc adds /verif/hooks/deploy_export_verif.go (//go:build verif) to package deploy virtually with `go test -tags verif -overlay <generated overlay.json>`; chainmc compiles the contracts from the working tree and drives them through the public ABI",
             "baseline_off_cmd": "cd /repo && GOFLAGS=-mod=mod go test -vet=off -count=1 -timeout 25m ./...",
             "source_commits": [],
             "add_only": True,
         },
         "engines": [
+            {"name": "deploymc", "path": "/verif/deploymc", "serves_properties": ["C13"],
+             "kind_free_text": "hand-written stateless explorer of environment schedules (which member runs when, transaction order, crash points) around the unmodified public deploy.Deploy, virtual time via testing/synctest (go1.26.8)"},
             {"name": "chainmc", "path": "/verif/mc", "serves_properties": [p for p in props if p in CHECKS and CHECKS[p][0] == "chainmc"],
              "kind_free_text": "hand-written explicit-state model checker: level-synchronous BFS / exhaustive grids over the real contract bytecode on an in-memory neo-go chain, reference models in Go, conformance replay on real signed blocks"},
         ],
